@@ -49,7 +49,7 @@ def _val(v):
 
 # indexes into VALUES; the confusable values 1 / 1.0 / True / (1,) / (1.0,) are over-weighted
 ARG = st.one_of(st.sampled_from(range(len(VALUES))), st.sampled_from([1, 3, 5, 10, 11, 1, 16, 17]))
-CALL = st.tuples(st.lists(ARG, max_size=2), st.lists(st.tuples(st.sampled_from(["a", "b"]), ARG), max_size=2,
+CALL = st.tuples(st.lists(ARG, max_size=2), st.lists(st.tuples(st.sampled_from(["a", "b", "self", "key"]), ARG), max_size=2,
                                                      unique_by=lambda t: t[0]))
 
 
@@ -60,8 +60,12 @@ def histories(draw, kind, tier):
     typed = draw(st.booleans()) if maxsize not in ("bare", "cache") else False
     # a small pool of call patterns per history makes hits, evictions and equal-but-not-identical
     # patterns frequent; patterns outside the pool still occur
-    pool = draw(st.lists(CALL, min_size=2, max_size=6))
-    pick = st.one_of(st.sampled_from(pool), st.sampled_from(pool), st.sampled_from(pool), CALL)
+    call = CALL
+    if kind in ("method", "classmethod"):
+        # (a keyword named like the wrapped function's own first parameter is the caller's error everywhere)
+        call = CALL.map(lambda c: (c[0], [(("other" if k in ("self", "cls") else k), v) for k, v in c[1]]))
+    pool = draw(st.lists(call, min_size=2, max_size=6))
+    pick = st.one_of(st.sampled_from(pool), st.sampled_from(pool), st.sampled_from(pool), call)
     op = st.one_of(
         st.tuples(st.just("call"), st.integers(0, 1), pick),
         st.tuples(st.just("call"), st.integers(0, 1), pick),
